@@ -287,6 +287,12 @@ def install():
 GRAPH_STATES = ["q0", "x y", "starting_0", "INITIAL_STACK_HIDDEN", 7, "q 1"]
 
 
+def digit_name_map(order):
+    """every state called by a digit-only TEXT ('0', '7', '07', '11'): texts, not numbers"""
+    names = ["0", "1", "07", "7", "10", "11", "2", "002", "3", "12", "13", "4", "5", "6", "8", "9"]
+    return {s: (names[i] if i < len(names) else "9%d" % i) for i, s in enumerate(order)}
+
+
 def graph_name_map(order):
     """names hostile to the graph export: the first state (a start state) is called X and the next one
     'starting_' + X, the name of the invisible node that marks X as a start state"""
@@ -341,6 +347,9 @@ def plan(tier, rng, sl, nslices, stats):
                     ast = relabel(rs.gen_ast(rng, rng.choice([0, 1, 2]), escaped=0), heads, rng)
                     body = rs.render(ast, rng)
                 lines.append(h + " -> " + body)
+            if rng.random() < 0.15:
+                # punctuation symbols, also at the very end of a right-hand side
+                lines.append(rng.choice(heads) + " -> " + rng.choice(["a ;", "a b ;", "; a", "a , b ;", "a :"]))
             if rng.random() < 0.2:
                 # two alternatives of one head that differ only in where the blanks are: x y  vs  xy
                 x, y = rng.choice(["a", "b", "S", "A", "ab"]), rng.choice(["a", "b", "B", "c"])
@@ -371,7 +380,7 @@ def run_case(c, stats):
             # rebuild with graph-hostile names
             fa2 = EpsilonNFA()
             order = sorted(fa.start_states, key=repr) + sorted(set(fa.states) - set(fa.start_states), key=repr)
-            m = graph_name_map(order)
+            m = graph_name_map(order) if len(cc["trans"]) % 2 else digit_name_map(order)
             for p, a, q in fa:
                 fa2.add_transition(m[p], a, m[q])
             for s in fa.start_states:
